@@ -1208,7 +1208,7 @@ func (m *Machine) step(st *State) (forks []*State) {
 			return nil
 		}
 		n := len(st.Heap[mv.Obj].V.(*MapObjV).K)
-		if n > 6 {
+		if n > 6 || (m.SampleOrders && n > 3) {
 			// too many orders to enumerate: one order stands for all when the loop provably does not depend on it
 			// (unique-match idiom, element-keyed updates and deletes only: the rule behind C18-DET)
 			okOrder, known := m.orderFree[x]
@@ -1223,6 +1223,16 @@ func (m *Machine) step(st *State) (forks []*State) {
 					m.orderFree = map[*ssa.Range]bool{}
 				}
 				m.orderFree[x] = okOrder
+			}
+			if !okOrder && m.SampleOrders && st.Notes["map-order-sampled"] {
+				// one sampled loop per run: the orders of the first one are enough for a witness, and forking at
+				// every large map multiplies the states
+				fwd := make([]int, n)
+				for i := range fwd {
+					fwd[i] = i
+				}
+				set(&MapIterV{Obj: mv.Obj, Order: fwd})
+				return nil
 			}
 			if !okOrder && m.SampleOrders {
 				// three of the n! orders: outcomes that differ are a witness of order dependence, outcomes that
